@@ -687,4 +687,327 @@ theorem request_challenged (a : AEAD) (hl : a.Laws) {s : NetcodeServer} {addr : 
     subst h0
     exact ⟨_, hpp, h1, h2, h3, h4, h5, h6, h7, h8, hinv⟩
 
+/-- **response ⇒ ClientConnected + keep-alive**, with the new server state written out (`NS.progress_response` only
+    exposes its slot table and pending map) -/
+theorem response_connects_eq (a : AEAD) (hl : a.Laws) {s : NetcodeServer} {addr : Addr} {p : Connection} {i seq cs : Nat}
+    (hi : ServerInv s) (hg : s.globalSequence < U64_MAX) (hc : s.challengeSequence < U64_MAX)
+    (hfa : findClientByAddr s.clients addr = none) (hpf : pendingFind s.pendingClients addr = some p)
+    (hid : findClientById s.clients p.clientId = none) (hff : firstFreeSlot s.clients = some i)
+    (hud : p.userData.length = 256) (hcid : p.clientId < 2 ^ 64) (hcs : cs < 2 ^ 64) (hseq : seq < 2 ^ 64) :
+    s.processPacket a addr
+        (Packet.sealedBytes a (.response cs (challengeToken a s p.clientId p.userData cs)) s.protocolId seq p.receiveKey) =
+      .ok (.clientConnected p.clientId addr p.userData (connectKeepAlive a s p i),
+           { s with pendingClients := pendingRemove s.pendingClients addr
+                    clients := s.clients.set i (some (promoted p p.replayProtection s.currentTime)) }) := by
+  have hdec := Packet.decode_sealedBytes a (.response cs (challengeToken a s p.clientId p.userData cs))
+    s.protocolId seq p.receiveKey hl hseq (by simp [Packet.packetType])
+    ⟨hcs, challengeToken_length a hl s p.clientId hud _⟩ (some p.replayProtection) rfl
+  simp only [Packet.stepWindow, Packet.packetType, PacketType.applyReplayProtection, Option.map_some,
+    Bool.false_eq_true, if_false] at hdec
+  have hct : ChallengeToken.decode a (challengeToken a s p.clientId p.userData cs) cs s.challengeKey =
+      .ok ⟨p.clientId, p.userData⟩ := ch_decode_generate a hl p.clientId p.userData hcid hud cs s.challengeKey
+  have hpok := hi.pend (addr, p) (NS.pendingFind_mem hpf)
+  have hka : (Packet.keepAlive (i % 2 ^ 32) (s.maxClients % 2 ^ 32)).encode a C.NETCODE_MAX_PACKET_BYTES s.protocolId
+      (some (p.sequence, p.sendKey)) = .ok (connectKeepAlive a s p i) := by
+    rw [Packet.encode_sealed_eq a _ _ _ _ _ (by simp [Packet.packetType])]
+    have h1 := Packet.sbr_le p.sequence
+    rw [if_pos]
+    · rfl
+    · simp only [Packet.body, List.length_append, leBytes_length]
+      have : C.NETCODE_MAX_PACKET_BYTES = 1400 := rfl
+      omega
+  have hden : ∀ e, Packet.connectionDenied.encode a C.NETCODE_MAX_PACKET_BYTES s.protocolId
+      (some (s.globalSequence, p.sendKey)) ≠ .err e := by
+    intro e
+    rw [Packet.encode_sealed_eq a _ _ _ _ _ (by simp [Packet.packetType])]
+    have h1 := Packet.sbr_le s.globalSequence
+    rw [if_pos]
+    · simp
+    · simp only [Packet.body, List.length_nil]
+      have : C.NETCODE_MAX_PACKET_BYTES = 1400 := rfl
+      omega
+  obtain ⟨r, s', hpp, hout⟩ := pp_spec a hi hg hc addr
+    (Packet.sealedBytes a (.response cs (challengeToken a s p.clientId p.userData cs)) s.protocolId seq p.receiveKey)
+  cases hout with
+  | short h =>
+    exfalso
+    rw [decode_eq, if_pos h] at hdec; cases hdec
+  | connErr i' c e w' hfa' => rw [hfa] at hfa'; cases hfa'
+  | connDisconnect i' c sq w' hfa' => rw [hfa] at hfa'; cases hfa'
+  | connPayload i' c sq pl w' hfa' => rw [hfa] at hfa'; cases hfa'
+  | connKeepAlive i' c sq ci mc w' hfa' => rw [hfa] at hfa'; cases hfa'
+  | connOther i' c sq pk w' hfa' => rw [hfa] at hfa'; cases hfa'
+  | pendErr p' e w' _ hpf' hd => rw [hpf] at hpf'; cases hpf'; rw [hdec] at hd; cases hd
+  | pendRequest p' sq v pid expire' xnonce' data w' R _ _ _ hpf' hd =>
+    rw [hpf] at hpf'; cases hpf'; rw [hdec] at hd; cases hd
+  | pendOther p' sq pk w' _ hpf' hd _ h2 =>
+    rw [hpf] at hpf'; cases hpf'; rw [hdec] at hd; cases hd
+    exact absurd rfl h2
+  | respRejected p' sq ts td w' _ hpf' hd hbad =>
+    rw [hpf] at hpf'; cases hpf'; rw [hdec] at hd; cases hd
+    rcases hbad _ hct with h | h <;> exact absurd rfl h
+  | respDropped p' sq ts td w' _ hpf' hd _ hcause =>
+    rw [hpf] at hpf'; cases hpf'
+    rcases hcause with h | ⟨e, h⟩ | ⟨i', e, h1, h2⟩
+    · rw [findSlot_isSome, hid] at h; cases h
+    · exact absurd h (hden e)
+    · rw [hff] at h1; cases h1
+      rw [hka] at h2; cases h2
+  | respFull p' sq ts td w' out _ hpf' hd _ _ hff' => rw [hff] at hff'; cases hff'
+  | respConnected p' sq ts td w' i' out _ hpf' hd _ _ hff' hen =>
+    rw [hpf] at hpf'; cases hpf'; rw [hdec] at hd; cases hd
+    rw [hff] at hff'; cases hff'
+    rw [hka] at hen; cases hen
+    exact hpp
+  | newErr e _ hpf' => rw [hpf] at hpf'; cases hpf'
+  | newRequest sq v pid expire' xnonce' data R _ _ _ hpf' => rw [hpf] at hpf'; cases hpf'
+
+/-- the server after `update(d)` -/
+abbrev srvTick (s : NetcodeServer) (d : Nat) : NetcodeServer :=
+  { s with currentTime := s.currentTime + d
+           pendingClients := s.pendingClients.filter fun p => !(asSecs (s.currentTime + d) > p.2.expireTimestamp) }
+
+theorem server_update_eq {s : NetcodeServer} {d : Nat} (h : s.currentTime + d ≤ DURATION_MAX) :
+    s.update d = .ok (srvTick s d) := by
+  obtain ⟨s', hs⟩ := update_ne_panic h
+  rw [hs, update_ok hs]
+
+theorem timeout_le {c : Connection} (h : c.timeoutSeconds < 2 ^ 31) :
+    fromSecs c.timeoutSeconds.toNat ≤ fromSecs (2 ^ 31) := by
+  unfold fromSecs
+  apply Nat.mul_le_mul_right
+  omega
+
+/-- `update_client` for a session that is neither timed out nor due for a keep-alive: nothing happens -/
+theorem updateClient_quiet (a : AEAD) {s : NetcodeServer} {id i : Nat} {cn : Connection} (hi : ServerInv s)
+    (hc : At s.clients i cn) (hid : cn.clientId = id) (hnt : ¬ TimedOut cn s.currentTime)
+    (hclock : s.currentTime + fromSecs (2 ^ 31) ≤ DURATION_MAX) (hseq : cn.sequence < U64_MAX)
+    (hnd : s.currentTime < cn.lastPacketSendTime + C.NETCODE_SEND_RATE_NS) :
+    s.updateClient a id = .ok (.none, s) := by
+  have hf : findClientSlotById s.clients id = some i := hi.slots.findSlot_iff.mpr ⟨cn, hc, hid⟩
+  rcases updateClient_spec a hi hf hc with ⟨hto, _⟩ | ⟨_, e | ⟨out, hdue, _, _⟩⟩ | ⟨_, hn⟩
+  · exact absurd hto hnt
+  · exact e
+  · omega
+  · exact absurd ⟨hclock, hseq⟩ hn
+
+/-- the keep-alive part of `update_client`, when it is due -/
+theorem ucTail_due (a : AEAD) (s : NetcodeServer) (id i : Nat) {cn : Connection} (hst : cn.state = .connected)
+    (hsend : cn.lastPacketSendTime + C.NETCODE_SEND_RATE_NS ≤ DURATION_MAX) (hseq : cn.sequence < U64_MAX)
+    (hdue : cn.lastPacketSendTime + C.NETCODE_SEND_RATE_NS ≤ s.currentTime) :
+    ucTail a s id i cn false =
+      .ok (.packetToSend cn.addr (connectKeepAlive a s cn i),
+           { s with clients := s.clients.set i (some (sentKeepAlive cn s.currentTime)) }) := by
+  have hnd : ¬ cn.state = .disconnected := by rw [hst]; simp
+  have hka : (Packet.keepAlive (i % 2 ^ 32) (s.maxClients % 2 ^ 32)).encode a C.NETCODE_MAX_PACKET_BYTES s.protocolId
+      (some (cn.sequence, cn.sendKey)) = .ok (connectKeepAlive a s cn i) := by
+    rw [Packet.encode_sealed_eq a _ _ _ _ _ (by simp [Packet.packetType])]
+    have h1 := Packet.sbr_le cn.sequence
+    rw [if_pos]
+    · rfl
+    · simp only [Packet.body, List.length_append, leBytes_length]
+      have : C.NETCODE_MAX_PACKET_BYTES = 1400 := rfl
+      omega
+  unfold ucTail
+  simp only [Bool.false_eq_true, if_false]
+  rw [if_neg hnd, durAdd_ok _ hsend]
+  simp only [bind_ok', if_pos hdue, hka, incU64_ok _ hseq, pure_eq']
+
+/-- **`update_client` for a session that is not timed out and whose send timer is due: a keep-alive goes out**
+    (sealed with the session's send key and sequence number, which is then incremented) -/
+theorem updateClient_due (a : AEAD) {s : NetcodeServer} {id i : Nat} {cn : Connection} (hi : ServerInv s)
+    (hc : At s.clients i cn) (hid : cn.clientId = id) (hnt : ¬ TimedOut cn s.currentTime)
+    (hclock : s.currentTime + fromSecs (2 ^ 31) ≤ DURATION_MAX) (hseq : cn.sequence < U64_MAX)
+    (hdue : cn.lastPacketSendTime + C.NETCODE_SEND_RATE_NS ≤ s.currentTime) :
+    s.updateClient a id =
+      .ok (.packetToSend cn.addr (connectKeepAlive a s cn i),
+           { s with clients := s.clients.set i (some (sentKeepAlive cn s.currentTime)) }) := by
+  have hf : findClientSlotById s.clients id = some i := hi.slots.findSlot_iff.mpr ⟨cn, hc, hid⟩
+  have hok := hi.slotsOK i cn hc
+  have hst := hi.slots.conn i cn hc
+  have hns := timeout_le hok.tmo
+  have h1 := hok.recv
+  have hsend : cn.lastPacketSendTime + C.NETCODE_SEND_RATE_NS ≤ DURATION_MAX := by
+    have : C.NETCODE_SEND_RATE_NS ≤ fromSecs (2 ^ 31) := by decide
+    have := hok.send
+    omega
+  rw [updateClient_eq a hf hc]
+  by_cases ht1 : cn.timeoutSeconds > 0
+  · have hlt : ¬ cn.lastPacketReceivedTime + fromSecs cn.timeoutSeconds.toNat < s.currentTime := fun h => hnt ⟨ht1, h⟩
+    rw [if_pos ht1, durAdd_ok _ (by omega)]
+    simp only [bind_ok', pure_eq', decide_eq_false hlt]
+    exact ucTail_due a s id i hst hsend hseq hdue
+  · rw [if_neg ht1]
+    simp only [pure_eq', bind_ok']
+    exact ucTail_due a s id i hst hsend hseq hdue
+
+/-- a datagram from a connected address that decodes to anything but Disconnect / Payload / KeepAlive (e.g. a
+    retransmitted Response) only steps that session's replay window -/
+theorem pp_connected_other (a : AEAD) {s : NetcodeServer} {addr : Addr} {buf : Bytes} {i sq : Nat} {cn : Connection}
+    {pk : Packet} {w' : RP} (hi : ServerInv s) (hg : s.globalSequence < U64_MAX) (hc : s.challengeSequence < U64_MAX)
+    (hfa : findClientByAddr s.clients addr = some (i, cn))
+    (hdec : Packet.decode a buf s.protocolId (some cn.receiveKey) (some cn.replayProtection) = (.ok (sq, pk), some w'))
+    (h1 : pk.packetType ≠ .disconnect) (h2 : pk.packetType ≠ .payload) (h3 : pk.packetType ≠ .keepAlive) :
+    s.processPacket a addr buf =
+      .ok (.none, { s with clients := s.clients.set i (some { cn with replayProtection := w' }) }) := by
+  obtain ⟨r, s', hpp, hout⟩ := pp_spec a hi hg hc addr buf
+  cases hout with
+  | short hs => exfalso; rw [decode_eq, if_pos hs] at hdec; cases hdec
+  | connErr j cj e w'' hfa' hdec' => rw [hfa] at hfa'; cases hfa'; rw [hdec] at hdec'; cases hdec'
+  | connDisconnect j cj sq' w'' hfa' hdec' =>
+    rw [hfa] at hfa'; cases hfa'; rw [hdec] at hdec'; cases hdec'; exact absurd rfl h1
+  | connPayload j cj sq' p w'' hfa' hdec' =>
+    rw [hfa] at hfa'; cases hfa'; rw [hdec] at hdec'; cases hdec'; exact absurd rfl h2
+  | connKeepAlive j cj sq' ci mc w'' hfa' hdec' =>
+    rw [hfa] at hfa'; cases hfa'; rw [hdec] at hdec'; cases hdec'; exact absurd rfl h3
+  | connOther j cj sq' pk' w'' hfa' hdec' _ _ _ =>
+    rw [hfa] at hfa'; cases hfa'; rw [hdec] at hdec'; cases hdec'; exact hpp
+  | pendErr p e w'' hfa' => rw [hfa] at hfa'; cases hfa'
+  | pendRequest p sq' v pid expire xnonce data w'' R _ _ hfa' => rw [hfa] at hfa'; cases hfa'
+  | pendOther p sq' pk' w'' hfa' => rw [hfa] at hfa'; cases hfa'
+  | respRejected p sq' ts td w'' hfa' => rw [hfa] at hfa'; cases hfa'
+  | respDropped p sq' ts td w'' hfa' => rw [hfa] at hfa'; cases hfa'
+  | respFull p sq' ts td w'' out hfa' => rw [hfa] at hfa'; cases hfa'
+  | respConnected p sq' ts td w'' j out hfa' => rw [hfa] at hfa'; cases hfa'
+  | newErr e hfa' => rw [hfa] at hfa'; cases hfa'
+  | newRequest sq' v pid expire xnonce data R _ _ hfa' => rw [hfa] at hfa'; cases hfa'
+
+/-! ### B.2 client side -/
+
+/-- How long a connecting client can still run: `T` more nanoseconds without the token's window closing, the
+    server-silence time-out firing, or a `Duration` operation overflowing. -/
+structure CBudget (c : NetcodeClient) (T : Nat) : Prop where
+  clock : c.currentTime + T + fromSecs c.connectToken.timeoutSeconds.toNat ≤ DURATION_MAX
+  start : c.connectStartTime ≤ c.currentTime
+  recv : c.lastPacketReceivedTime ≤ c.currentTime
+  window : asSecs (c.currentTime + T - c.connectStartTime) < tokenWindow c
+  alive : c.connectToken.timeoutSeconds ≤ 0 ∨
+    c.currentTime + T ≤ c.lastPacketReceivedTime + fromSecs c.connectToken.timeoutSeconds.toNat
+
+theorem asSecs_mono {x y : Nat} (h : x ≤ y) : asSecs x ≤ asSecs y := Nat.div_le_div_right h
+
+theorem CBudget.clockOK {c : NetcodeClient} {T d : Nat} (h : CBudget c T) (hd : d ≤ T) : ClockOK c d := by
+  have h1 := h.clock; have h2 := h.start; have h3 := h.recv
+  exact ⟨by omega, by omega, by omega⟩
+
+theorem CBudget.inWindow {c : NetcodeClient} {T d : Nat} (h : CBudget c T) (hd : d ≤ T) :
+    asSecs (c.currentTime + d - c.connectStartTime) < tokenWindow c :=
+  Nat.lt_of_le_of_lt (asSecs_mono (by omega)) h.window
+
+theorem CBudget.notTimedOut {c : NetcodeClient} {T d : Nat} (h : CBudget c T) (hd : d ≤ T) :
+    ¬ CTimedOut c (c.currentTime + d) := by
+  rintro ⟨h1, h2⟩
+  rcases h.alive with h3 | h3 <;> omega
+
+theorem CBudget.step {c c' : NetcodeClient} {T d : Nat} (h : CBudget c T) (hd : d ≤ T)
+    (h1 : c'.currentTime = c.currentTime + d) (h2 : c'.connectToken = c.connectToken)
+    (h3 : c'.connectStartTime = c.connectStartTime)
+    (h4 : c'.lastPacketReceivedTime = c.lastPacketReceivedTime ∨ c'.lastPacketReceivedTime = c'.currentTime) :
+    CBudget c' (T - d) := by
+  have e1 := h.clock; have e2 := h.start; have e3 := h.recv; have e4 := h.window; have e5 := h.alive
+  have hw : tokenWindow c' = tokenWindow c := by unfold tokenWindow; rw [h2]
+  refine ⟨by rw [h1, h2]; omega, by rw [h1, h3]; omega, by rcases h4 with e | e <;> rw [e] <;> omega, ?_, ?_⟩
+  · rw [hw, h1, h3]
+    have : c.currentTime + d + (T - d) = c.currentTime + T := by omega
+    rw [this]; exact e4
+  · rw [h2, h1]
+    rcases e5 with e | e
+    · exact Or.inl e
+    · right
+      rcases h4 with e' | e' <;> rw [e'] <;> omega
+
+/-- a connecting client within its budget: `update(d)` advances the clock and goes on to `generate_packet` -/
+theorem update_continues (a : AEAD) {c : NetcodeClient} {T d : Nat} (hst : Connecting c) (h : CBudget c T) (hd : d ≤ T) :
+    c.update a d = ({ c with currentTime := c.currentTime + d } : NetcodeClient).generatePacket a := by
+  unfold NetcodeClient.update
+  rw [client_connecting_continues hst (h.clockOK hd) (h.inWindow hd) (h.notTimedOut hd)]
+  simp only [bind_ok']
+
+/-- the send-rate gate is closed: nothing is sent -/
+theorem generatePacket_closed (a : AEAD) {c : NetcodeClient} {tm : Nat} (hs : c.lastPacketSendTime = some tm)
+    (hle : tm ≤ c.currentTime) (h : c.currentTime - tm < c.sendRate) : c.generatePacket a = .ok (none, c) := by
+  unfold NetcodeClient.generatePacket
+  simp only [hs, csub_ok _ hle, bind_ok', pure_eq', decide_eq_true h, if_true]
+
+/-- the send-rate gate is open: an active client behaves as if it had not sent anything yet -/
+theorem generatePacket_open (a : AEAD) {c : NetcodeClient} {tm : Nat} (hs : c.lastPacketSendTime = some tm)
+    (hle : tm ≤ c.currentTime) (h : c.sendRate ≤ c.currentTime - tm) (hact : Connecting c) :
+    c.generatePacket a = ({ c with lastPacketSendTime := none } : NetcodeClient).generatePacket a := by
+  rcases c with ⟨st, f2, f3, ls, f5, f6, f7, f8, f9, f10, f11, f12, f13, f14, f15, f16⟩
+  simp only at hs hle h
+  subst hs
+  unfold NetcodeClient.generatePacket
+  simp only [csub_ok _ hle, bind_ok', pure_eq', decide_eq_false (Nat.not_lt.mpr h), Bool.false_eq_true, if_false]
+  rcases hact with h1 | h1 <;> (simp only at h1; subst h1; rfl)
+
+/-- the send-rate gate of `update(d)` is open: nothing was sent yet, or the last packet is at least `send_rate` old -/
+def GateOpen (c : NetcodeClient) (d : Nat) : Prop :=
+  ∀ tm, c.lastPacketSendTime = some tm → c.sendRate ≤ c.currentTime + d - tm
+
+theorem gateOpen_of_none {c : NetcodeClient} {d : Nat} (h : c.lastPacketSendTime = none) : GateOpen c d := by
+  intro tm e; rw [h] at e; cases e
+
+theorem gateOpen_of_rate {c : NetcodeClient} {d : Nat} (h : c.sendRate ≤ d)
+    (hle : ∀ tm, c.lastPacketSendTime = some tm → tm ≤ c.currentTime) : GateOpen c d := by
+  intro tm e; have := hle tm e; omega
+
+/-- the client after an `update(d)` that sent nothing / sent a packet -/
+abbrev cliTick (c : NetcodeClient) (d : Nat) : NetcodeClient := { c with currentTime := c.currentTime + d }
+abbrev cliSent (c : NetcodeClient) (d : Nat) : NetcodeClient :=
+  { c with currentTime := c.currentTime + d, lastPacketSendTime := some (c.currentTime + d), sequence := c.sequence + 1 }
+
+/-- **gate closed**: `update(d)` of a connecting client only advances its clock -/
+theorem update_gate_closed (a : AEAD) {c : NetcodeClient} {T d : Nat} (hst : Connecting c) (hb : CBudget c T) (hd : d ≤ T)
+    (hle : ∀ tm, c.lastPacketSendTime = some tm → tm ≤ c.currentTime) (hg : ¬ GateOpen c d) :
+    c.update a d = .ok (none, cliTick c d) := by
+  rw [update_continues a hst hb hd]
+  unfold GateOpen at hg
+  have : ∃ tm, c.lastPacketSendTime = some tm ∧ c.currentTime + d - tm < c.sendRate := by
+    apply Classical.byContradiction
+    intro hn
+    apply hg
+    intro tm e
+    apply Classical.byContradiction
+    intro hlt
+    exact hn ⟨tm, e, by omega⟩
+  obtain ⟨tm, e, hlt⟩ := this
+  exact generatePacket_closed a (c := { c with currentTime := c.currentTime + d }) e (by have := hle tm e; simp only; omega) hlt
+
+/-- **gate open, request phase**: `update(d)` emits the connection request (again) with a fresh sequence number -/
+theorem update_sends_request (a : AEAD) (hl : a.Laws) {c : NetcodeClient} {s : NetcodeServer} {t : PrivateConnectToken}
+    {expire : Nat} {xnonce : Bytes} {T d : Nat} (htok : TokenFor a s t expire xnonce c.connectToken) (hwf : PTokenWF t)
+    (hxn : xnonce.length = 24) (hst : c.state = .sendingConnectionRequest) (hb : CBudget c T) (hd : d ≤ T)
+    (hseq : c.sequence < U64_MAX) (hle : ∀ tm, c.lastPacketSendTime = some tm → tm ≤ c.currentTime)
+    (hg : GateOpen c d) :
+    c.update a d = .ok (some (requestBytes a s t expire xnonce, c.serverAddr), cliSent c d) := by
+  rw [update_continues a (Or.inl hst) hb hd]
+  rcases Option.eq_none_or_eq_some c.lastPacketSendTime with hls | ⟨tm, hls⟩
+  · exact progress_send_request a hl (c := { c with currentTime := c.currentTime + d }) htok hwf hxn hst hls hseq
+  · rw [generatePacket_open a (c := { c with currentTime := c.currentTime + d }) hls
+      (by have := hle tm hls; simp only; omega) (hg tm hls) (Or.inl hst)]
+    exact progress_send_request a hl (c := { c with currentTime := c.currentTime + d, lastPacketSendTime := none })
+      htok hwf hxn hst rfl hseq
+
+/-- **gate open, response phase**: `update(d)` emits the response (again) with a fresh sequence number -/
+theorem update_sends_response (a : AEAD) (hl : a.Laws) {c : NetcodeClient} {T d : Nat}
+    (hst : c.state = .sendingConnectionResponse) (htd : c.challengeTokenData.length = 300) (hb : CBudget c T)
+    (hd : d ≤ T) (hseq : c.sequence < U64_MAX) (hle : ∀ tm, c.lastPacketSendTime = some tm → tm ≤ c.currentTime)
+    (hg : GateOpen c d) :
+    c.update a d = .ok (some (responseBytes a c, c.serverAddr), cliSent c d) := by
+  rw [update_continues a (Or.inr hst) hb hd]
+  rcases Option.eq_none_or_eq_some c.lastPacketSendTime with hls | ⟨tm, hls⟩
+  · exact progress_send_response a hl (c := { c with currentTime := c.currentTime + d }) hst hls hseq htd
+  · rw [generatePacket_open a (c := { c with currentTime := c.currentTime + d }) hls
+      (by have := hle tm hls; simp only; omega) (hg tm hls) (Or.inr hst)]
+    exact progress_send_response a hl (c := { c with currentTime := c.currentTime + d, lastPacketSendTime := none })
+      hst rfl hseq htd
+
+theorem rp_new_fresh (k : Nat) : RP.new.alreadyReceived k = false := by
+  unfold RP.alreadyReceived
+  have h1 : ¬ (k + 256 ≤ RP.alreadyReceived.U64 ∧ k + 256 ≤ RP.new.mostRecent) := by
+    intro h; have := h.2; simp only [RP.new] at this; omega
+  rw [if_neg h1]
+  have h2 : RP.new.at k = Replay.EMPTY := by simp [RP.at, RP.new]
+  rw [if_pos h2]
+
 end RenetVerif.NcLive2
